@@ -315,21 +315,23 @@ def run(ctx) -> None:
         ctx.exhaustive.append("every window layout (bounds on/after each row time, open/closed/empty/all) for tables of "
                               "1,2,3,5(,8) rows with the probe test")
         # ---- W2
-        for _ in range(ctx.pick(260, 1500)):
-            n = rng.choice([1, 2, 3, 5, 8, 13])
-            nstreams = rng.choice([1, 1, 2, 3])
+        for _ in range(ctx.pick(170, 1500)):
+            n = rng.choice([1, 2, 3, 5, 8, 13, 13, 40, ctx.pick(120, 500)])
+            nstreams = rng.choice([1, 1, 2, 3, 5])
             streams = [f"v{k + 1}" for k in range(nstreams)]
             with_time = rng.random() < 0.9
             tb = P.Table(n, streams=streams, secs=None if rng.random() < 0.5 else gen_irregular(rng, n),
                          with_z=rng.random() < 0.8, with_pos=rng.random() < 0.8, with_time=with_time)
-            nctx = rng.choice([1, 2, 3])
+            nctx = rng.choice([1, 2, 3, 3, 5, 7])
             lay = P.window_layouts(tb) if with_time else [(None, None)]
+            if len(lay) > 400:
+                lay = rng.sample(lay, 400)
             wins = rng.sample(lay, min(nctx, len(lay)))
             contexts = []
             for ci, w in enumerate(wins):
                 sd = {}
                 for s in rng.sample(streams, rng.randrange(1, nstreams + 1)):
-                    keys = rng.sample(sorted(REAL_TESTS), rng.choice([0, 1, 2]))
+                    keys = rng.sample(sorted(REAL_TESTS), rng.choice([0, 1, 2, 2, 5]))
                     tests = [("qartod", "vf_probe_test", {"tag": ci * 7 + streams.index(s)})]
                     for k in keys:
                         m, t, kw, needs = REAL_TESTS[k]
